@@ -322,6 +322,11 @@ def well_formed(mesh, init, expected=None, exact=True):
             except Exception as ex:
                 fail("nbrs-no-raise", "neighbour_elements() of edge {} of {} raised {!r}".format(k, e, ex))
                 ns = None
+            if isinstance(ns, list):
+                # the caller owns what it gets (e.g. `found = edge.neighbour_elements(); found += ...`): the answer is copied and
+                # the returned list object is then extended; no later answer, of this or any other edge or mesh, may change
+                ret, ns = ns, list(ns)
+                ret.append(e)
             nb[(e, k)] = ns
             if ns is None:
                 continue
@@ -1108,6 +1113,13 @@ def eta_designs(n, variant, rng, perm_limit):
         j = rng.randrange(n)
         special.append([v for i in range(n) for v in ((100, 90) if i == j else (1 + i, 2 + i))])  # both axes
     vecs.extend(tuple(s) for s in special)
+    # magnitudes: the marking rule is invariant under scaling by a power of two (exact in floating point); squared indicators of the
+    # size 1e-12 .. 1e-18 occur late in an adaptive run, very large ones with unscaled data
+    scaled = []
+    for sc in (2.0 ** -40, 2.0 ** -60, 2.0 ** 40):
+        for s_ in (special[3], special[4], special[6], tuple(base)):
+            scaled.append(tuple(float(v) * sc for v in s_))
+    vecs.extend(scaled)
     if variant == "anisotropic":
         vecs = [tuple((v[2 * i], v[2 * i + 1]) for i in range(n)) for v in vecs]
     return vecs
